@@ -41,6 +41,23 @@ from .types import NodeSort as _NodeSort
 NODE_TRUTHY = z3.Function("node_truthy", _NodeSort, z3.BoolSort())
 
 
+INTERNED = {}       # python string -> constant of the Node sort ("names as atoms")
+
+
+def intern_name(s):
+    """a python string that is compared with a value of the opaque Node sort (a name that is only ever compared) is represented by a
+    constant of that sort; different strings are different constants (the engine adds the distinctness fact to every query)"""
+    c = INTERNED.get(s)
+    if c is None:
+        c = INTERNED[s] = z3.Const("name:" + s, _NodeSort)
+    return c
+
+
+def interned_distinct():
+    cs = list(INTERNED.values())
+    return [z3.Distinct(*cs)] if len(cs) > 1 else []
+
+
 class Facts:
     """side facts (definitional axioms of uninterpreted terms) accumulated during evaluation"""
 
@@ -392,6 +409,10 @@ def values_equal(a, b):
         return I(a) == I(b)
     if isinstance(a, str) and isinstance(b, str):
         return a == b
+    if isinstance(a, str) and is_sym(b) and b.sort() == _NodeSort:
+        return intern_name(a) == b
+    if isinstance(b, str) and is_sym(a) and a.sort() == _NodeSort:
+        return a == intern_name(b)
     if isinstance(a, (str, z3.SeqRef)) and isinstance(b, (str, z3.SeqRef)):
         return S(a) == S(b)
     if type(a).__name__ == "FSet" or type(b).__name__ == "FSet":
